@@ -90,6 +90,8 @@ func C12(c *Ctx) {
 	c.R.Rule("C12-R6", "E1", "machines sharing a spec share no script runtime: each execution creates its own", 3)
 	c.R.Rule("C12-R7", "E1", "the action wrapper shared by all machines of a spec keeps no state: no write to its receiver or to package-level storage", 2)
 	c.wrapperEffects("C12-R7", false)
+	c.R.Rule("C12-R8", "E7", "compiling a source leaves the source object alone", 1)
+	c12SourceCompile(c)
 
 	a, step, walk := c.stepWalkAnalysis()
 	if a == nil {
